@@ -25,7 +25,7 @@ let handle line =
       (String.concat "," (List.map (fun (i, w) -> string_of_int (int_of_n i) ^ "=" ^ show_pc w.w_pc) d.writers))
       (if target_ok t0 ws d.target then "1" else "0")
   | ["decide"; cur; src; m] ->
-    let m = (match words m with ["-"] -> None | [mt; mg] -> Some (n mt, n mg) | _ -> failwith "m") in
+    let m = (match words m with ["-"] -> None | [mt; mg; same] -> Some ((n mt, n mg), same = "1") | _ -> failwith "m") in
     Printf.sprintf "%s %d" (match decide (n cur) (n src) m with Rewrite -> "rewrite" | Reuse -> "reuse")
       (int_of_n (writes_performed (n cur) (n src) m))
   | _ -> "!badrequest"
